@@ -26,7 +26,7 @@ def gen(rng, tier):
     out = []
     for i in range(n):
         kw = dict(fault=0.0, registry_rate=0.5, p_fault_ser=0.0, p_typed=0.35, p_tb=0.08, p_handoff=0.12, p_task=0.1,
-                  depth=4, file_dest=True)
+                  depth=4, file_dest=True, p_logcall=0.2)
         if tier == "thorough" and i % 3 == 0:
             kw.update(depth=7, width=5)
         case = progs.gen_case(rng, n_dests=1, **kw)
@@ -157,6 +157,10 @@ def expected_node(case, node, exns):
         if k in sd:
             ok, pv = oracles.ref_serfn(sd[k], pv)
         start[progs.key_name(k)] = pv
+    if node.get("api") == "log_call":
+        # Python binds the function's unused *args / **kwargs parameters to () and {}
+        start["f17"] = []
+        start["f18"] = {}
     failed = rec["exc"] is not None
     end, exc_name, reason = {}, None, None
     if failed:
